@@ -2,7 +2,7 @@
    Property theorems only (Run/ExecTheorems.v), pinned by Check, followed by Print Assumptions. *)
 From Coq Require Import ZArith String.
 From ApolloVerif Require Import Base.Chars Ast.Ast Schema.Model Run.Json Run.Coerce Run.TypedDoc Run.Prog
-  Run.Execute Run.ExecTop Run.RefExecute Run.ExecKnown Run.ExecProofs Run.ExecTheorems.
+  Run.Execute Run.ExecTop Run.RefExecute Run.ExecKnown Run.ExecProofs Run.ExecPaths Run.ExecTheorems.
 Local Open Scope string_scope.
 Local Open Scope list_scope.
 
@@ -15,8 +15,9 @@ Local Open Scope list_scope.
    and data = null comes with at least one field error (one direction of "data is null exactly when a null
    propagates to the root").
    NOT proved here (checked by the tie on every generated case, outside the known class): equality with the
-   reference executor of Run/RefExecute.v (C26_eq_reference), the full statement about error paths, the converse
-   direction of data_null_iff, and that the fuel ex_fuel_for always suffices (the statement is about requests whose
+   reference executor of Run/RefExecute.v (C26_eq_reference), the converse direction of data_null_iff (an error at a
+   position all of whose enclosing positions are non-null makes the data null), and that the fuel ex_fuel_for
+   always suffices (the statement is about requests whose
    outcome is a response; the model runner reports out-of-fuel as a machinery error and never did). *)
 Theorem C26_nonnull_partial : forall s doc values w d vars root impls r log,
   execute_prepare s doc values = EpReady d vars root impls ->
@@ -30,6 +31,29 @@ Check C26_nonnull_partial : forall s doc values w d vars root impls r log,
   (forall m, er_data r = Some m -> shape_obj (ex_cx_for s d vars) root impls (rd_sels d) m) /\
   (er_data r = None -> er_errors r <> []).
 Print Assumptions C26_nonnull_partial.
+
+(* every field error carries the path of its position: following an error's path in the data reaches a null, at the
+   error's own position or at an enclosing position (the nearest nullable ancestor) to which the null propagated;
+   when the data is null that ancestor is the root.  For resolver worlds without SkipForPartialExecution (a skipped
+   list item shifts the response list's indices against the resolved list's). *)
+Theorem C26_error_paths : forall s doc values w r log,
+  world_skipfree w = true ->
+  execute_request s doc values w = (EoResponse r, log) ->
+  forall e, In e (er_errors r) ->
+    match er_data r with
+    | Some m => null_along (JObj m) (ge_path e)
+    | None => True
+    end.
+Proof. exact c26_error_paths. Qed.
+Check C26_error_paths : forall s doc values w r log,
+  world_skipfree w = true ->
+  execute_request s doc values w = (EoResponse r, log) ->
+  forall e, In e (er_errors r) ->
+    match er_data r with
+    | Some m => null_along (JObj m) (ge_path e)
+    | None => True
+    end.
+Print Assumptions C26_error_paths.
 
 (* the invariant behind it, for every executor function and every fuel: the result value has the shape of its
    type and selections, old errors are kept, every new error's path extends the position being executed, and a
@@ -51,7 +75,8 @@ Example C26_nonvacuous :
                                    (xs "__typename", JStr (xs "Query"))];
                   er_errors := [{| ge_class := EcNull; ge_path := [PsKey (xs "a"); PsKey (xs "l"); PsIdx 1%N] |};
                                 {| ge_class := EcLeaf; ge_path := [PsKey (xs "b"); PsKey (xs "n")] |}] |} /\
-  ref_execute x_nv_schema x_nv_doc [] x_nv_world = fst (execute_request x_nv_schema x_nv_doc [] x_nv_world).
+  ref_execute x_nv_schema x_nv_doc [] x_nv_world = fst (execute_request x_nv_schema x_nv_doc [] x_nv_world) /\
+  world_skipfree x_nv_world = true.
 Proof. exact c26_nonvacuous. Qed.
 
 (* The full statement is false of the faithful model: with `interface I { f: Int }  type T implements I { f: Int! }
